@@ -266,3 +266,131 @@ func Harness_C15_decrypt() {
 		V.Assert(created && bytes.Equal(content, P), "exit status 0 but the output does not hold the whole plaintext")
 	}
 }
+
+// ---------------------------------------------------------------------------
+// C18 at the CLI: parseRecipientsFile / parseIdentities
+
+const (
+	recA = "age1zvkyg2lqzraa2lnjvqej32nkuu0ues2s82hzrye869xeexvn73equnujwj"
+	recB = "age1lggyhqrw2nlhcxprm67z43rta597azn8gknawjehu9d9dl0jq3yqqvfafg"
+	idA  = "AGE-SECRET-KEY-1GFPYYSJZGFPYYSJZGFPYYSJZGFPYYSJZGFPYYSJZGFPYYSJZGFPQ4EGAEX"
+)
+
+type cliLine struct {
+	text     []byte
+	key, bad bool
+}
+
+var notLFTab = func() (t [256]bool) {
+	for i := range t {
+		t[i] = i != '\n'
+	}
+	return
+}()
+
+func cliBuildFile(valid []string) (file []byte, lines []cliLine) {
+	n := V.Int("lines", 0, V.Param("maxlines", 3))
+	stride := V.Param("stride", 9)
+	detailed := 0
+	for k := 0; k < n; k++ {
+		id := string(rune('0' + k))
+		var l cliLine
+		switch V.Int("kind"+id, 0, 5) {
+		case 0:
+			l = cliLine{text: []byte(valid[0]), key: true}
+		case 1:
+			l = cliLine{text: []byte(valid[len(valid)-1]), key: true}
+		case 2:
+			c := V.Bytes("cm"+id, V.Int("cl"+id, 0, 1))
+			for _, x := range c {
+				V.Assume(notLFTab[x])
+			}
+			l = cliLine{text: append([]byte("#"), c...)}
+		case 3:
+			l = cliLine{}
+		case 4:
+			V.Assume(detailed == 0)
+			detailed++
+			t := []byte(valid[0])
+			pos := V.Int("cp"+id, 0, (len(t)-1)/stride)*stride + V.Param("phase", 4)
+			V.Assume(pos < len(t))
+			c := V.Byte("cc" + id)
+			V.Assume(c != t[pos] && c != '\n' && !(pos == 0 && c == '#') && !(pos == len(t)-1 && c == '\r'))
+			t[pos] = c
+			l = cliLine{text: t, bad: true}
+		case 5:
+			l = cliLine{text: []byte(valid[0] + " "), bad: true}
+		}
+		lines = append(lines, l)
+		file = append(file, l.text...)
+		if k == n-1 && len(l.text) > 0 && V.Bool("noeol") {
+			break
+		}
+		if V.Bool("crlf" + id) {
+			file = append(file, '\r')
+		}
+		file = append(file, '\n')
+	}
+	return
+}
+
+func dec(n int) string {
+	if n >= 10 {
+		return string(rune('0'+n/10)) + string(rune('0'+n%10))
+	}
+	return string(rune('0' + n))
+}
+
+var fileData *bytes.Reader
+
+func fakeOpen(name string) (*os.File, error)      { return new(os.File), nil }
+func fakeRead(f *os.File, p []byte) (int, error) { return fileData.Read(p) }
+
+// Harness_C18_cli_recipients_file: cmd/age's -R file parser on files assembled
+// from valid recipients, comments, empty lines and damaged lines: one
+// recipient per key line in order, or an error naming the first damaged
+// line's number and showing none of its content.
+func Harness_C18_cli_recipients_file() {
+	file, lines := cliBuildFile([]string{recA, recB})
+	name := "recipients.txt"
+	if V.Symbolic() {
+		fileData = bytes.NewReader(file)
+		V.Override("os.Open", fakeOpen)
+		V.Override("(*os.File).Read", fakeRead)
+		V.Override("(*os.File).Close", fakeFileClose)
+	} else {
+		dir, derr := os.MkdirTemp("", "zzc18")
+		if derr != nil {
+			panic(derr)
+		}
+		defer os.RemoveAll(dir)
+		name = filepath.Join(dir, name)
+		os.WriteFile(name, file, 0600)
+	}
+	recs, err := parseRecipientsFile(name)
+	keys, badAt := 0, 0
+	for k, l := range lines {
+		if l.bad && badAt == 0 {
+			badAt = k + 1
+		}
+		if l.key {
+			keys++
+		}
+	}
+	switch {
+	case badAt > 0:
+		V.Reach("rejected-line")
+		V.Assert(err != nil && recs == nil, "a recipients file with a damaged line was not rejected as a whole")
+		if err != nil {
+			msg := err.Error()
+			V.Assert(bytes.Contains([]byte(msg), []byte("line "+dec(badAt))) && !bytes.Contains([]byte(msg), []byte("line "+dec(badAt)+"0")), "the error does not name the number of the damaged line")
+			V.Assert(!bytes.Contains([]byte(msg), []byte(recA[10:18])) && !bytes.Contains([]byte(msg), []byte(recA[40:48])), "the error message reproduces the content of a recipients-file line")
+		}
+	case keys == 0:
+		V.Reach("no-keys")
+		V.Assert(err != nil && recs == nil, "a recipients file without any key was accepted")
+	default:
+		V.Reach("accepted")
+		V.Assert(err == nil && len(recs) == keys, "not exactly one recipient per key line")
+	}
+}
